@@ -743,6 +743,7 @@ pub fn worker_main(args: &[String]) -> i32 {
     install_worker_panic_hook();
     let seed: u64 = std::env::var("VERIF_SEED").ok().and_then(|s| s.parse().ok()).unwrap_or(20260923);
     let (trees, _) = enumerate(tier);
+    let only_adv = std::env::var("VERIF_C12_ONLY_ADV").is_ok();
     let maxn = trees.iter().map(|t| t.len()).max().unwrap_or(1).max(3 * 8192);
     let bytes = (2 * maxn + 2) * 16;
     let mut w = W { a_in: Arena::new(bytes), a_out: Arena::new(bytes), a_scr: Arena::new(bytes * 8 + (1 << 16)), evaluations: 0, nontrivial: 0, states: 0, skipped_precond: 0, worst: 0.0 };
@@ -759,6 +760,9 @@ pub fn worker_main(args: &[String]) -> i32 {
                     continue;
                 }
             }
+        }
+        if only_adv && !tree.has_shifty() {
+            continue;
         }
         let n = tree.len();
         let dirs: Vec<FftDirection> = if tier == Tier::Thorough || single.is_some() { DIRS.to_vec() } else { vec![DIRS[idx % 2]] };
@@ -802,6 +806,72 @@ fn key_from_fields_with(trees: &[Tree]) -> impl Fn(&[i64]) -> String + '_ {
         let e = if f[5] < 0 { "construct".to_string() } else { Entry::ALL.get(f[5] as usize).map(|e| e.name().to_string()).unwrap_or_default() };
         format!("C12|tree={}|dir={}|T={}|entry={}|data={}|out={}|scratch={}|place={}|idx={}", t, if f[3] == 0 { "fwd" } else { "inv" }, if f[2] == 0 { "Fp".to_string() } else { format!("f{}", f[2]) }, e, f[6], f[7], f[8], if f[9] == 0 { "end" } else { "start" }, f[1])
     }
+}
+
+/// The adversarial-leaf trees only, for C03 (which owns the memory-safety clause): same worker, keys rewritten to C03.
+pub fn run_adversarial_for_c03(ctx: &Ctx, rep: &mut Report) {
+    let (trees, _) = enumerate(ctx.tier);
+    let keyfn = key_from_fields_with(&trees);
+    std::env::set_var("VERIF_C12_ONLY_ADV", "1");
+    let nstripes = threads();
+    let outs = Mutex::new(Vec::new());
+    std::thread::scope(|s| {
+        for st in 0..nstripes {
+            let outs = &outs;
+            let keyfn = &keyfn;
+            let tier = ctx.tier;
+            s.spawn(move || {
+                let o = run_stripe_generic("c12worker", "C12", tier, st, nstripes, None, keyfn);
+                outs.lock().unwrap().push(o);
+            });
+        }
+    });
+    std::env::remove_var("VERIF_C12_ONLY_ADV");
+    let mut cases = 0u64;
+    for o in outs.into_inner().unwrap() {
+        cases += o.evaluations;
+        rep.states += o.states;
+        for (k, w) in o.viols {
+            rep.violate(k.replacen("C12|", "C03|adversarial-inner|", 1), w, Json::Null);
+        }
+        for (k, sig) in o.crashes {
+            rep.violate(k.replacen("C12|", "C03|adversarial-inner|", 1), format!("fatal signal {} while running a composite whose inner transform is a safe user-written Fft that changes its len()/scratch answers after construction: an access outside the caller's buffers, or an unsafe-precondition abort", sig), Json::obj().with("signal", sig));
+        }
+        rep.machinery_errors.extend(o.machinery);
+    }
+    rep.evaluations += cases;
+    rep.transitions += cases;
+    rep.distinct_nontrivial += cases;
+    rep.set("adversarial_inner_cases", cases);
+    rep.set("adversarial_inner_trees", trees.iter().filter(|t| t.has_shifty()).count());
+}
+
+/// replay of one tree (by its description) in a worker process, twice; used by C12 and by C03's adversarial part
+pub fn replay_tree(ctx: &Ctx, key: &str, rep: &mut Report) -> bool {
+    let (trees, _) = enumerate(ctx.tier);
+    let keyfn = key_from_fields_with(&trees);
+    let m = parse_key(key);
+    let want = m.get("tree").cloned().unwrap_or_default();
+    let idx = match trees.iter().position(|t| t.describe() == want) {
+        Some(i) => i,
+        None => {
+            eprintln!("tree {} is not in this tier's set", want);
+            return false;
+        }
+    };
+    let mut f = [-1i64; NFIELDS];
+    f[1] = idx as i64;
+    let mut verdicts = Vec::new();
+    for round in 0..2 {
+        let so = run_stripe_generic("c12worker", "C12", ctx.tier, 0, 1, Some(f), &keyfn);
+        let what = so.crashes.first().map(|(k, s)| format!("fatal signal {} in {}", s, k)).or_else(|| so.viols.first().map(|(_, w)| w.clone()));
+        println!("replay round {}: {}", round, what.clone().map(|w| format!("reproduces: {}", w)).unwrap_or("does not reproduce".into()));
+        verdicts.push(what);
+    }
+    if let (Some(w), true) = (verdicts[0].clone(), verdicts[0] == verdicts[1]) {
+        rep.violate(key.to_string(), w, Json::Null);
+    }
+    true
 }
 
 pub fn run(ctx: &Ctx) -> i32 {
